@@ -22,6 +22,8 @@ struct Ctx {
     rep: Report,
     scratch: PathBuf,
     files: u64,
+    /// ONE pair of Searcher objects per configuration, reused by every case with that configuration
+    searchers: std::collections::HashMap<String, Searchers>,
 }
 
 fn count_class(rep: &Report, kind: &str, class: &str) -> usize {
@@ -141,6 +143,10 @@ fn flush(batch: &mut Vec<Prep>, ctx: &mut Ctx) {
 }
 
 fn run_case(line: &str, ctx: &mut Ctx, allow_shrink: bool) {
+    if line.starts_with("hist ") {
+        run_history(line, ctx);
+        return;
+    }
     let mut b: Vec<Prep> = prepare(line, ctx, allow_shrink).into_iter().collect();
     flush(&mut b, ctx);
 }
@@ -153,7 +159,8 @@ fn run_generic<M: Matcher>(p: &Prep, m: &M, answers: &[String], ctx: &mut Ctx) {
     ctx.rep.eval();
 
     let (path, model, spec, lines_reply) = (&answers[0][..], &answers[1][..], &answers[2][..], &answers[3][..]);
-    let mut ss = Searchers::new(cfg);
+    let skey = cfg.token();
+    let mut ss = ctx.searchers.remove(&skey).unwrap_or_else(|| Searchers::new(cfg));
     let imp = run_with(&mut ss.plain, m, input, Script::All, &Strategy::Slice).0;
 
     if path != "fast" && path != "slow" {
@@ -292,11 +299,6 @@ fn run_generic<M: Matcher>(p: &Prep, m: &M, answers: &[String], ctx: &mut Ctx) {
         if out == spec {
             continue;
         }
-        if cfg.son && strip_fin_count(&out) == strip_fin_count(spec) {
-            // F10 (belongs to C02): bytes searched after stop_on_nonmatch differ between strategies
-            ctx.rep.branch("F10-bytecount-differs");
-            continue;
-        }
         if out != imp {
             ctx.rep.branch("strategy-differs-from-slice");
         }
@@ -310,6 +312,7 @@ fn run_generic<M: Matcher>(p: &Prep, m: &M, answers: &[String], ctx: &mut Ctx) {
     }
 
     std::fs::remove_file(&file_to_remove).ok();
+    ctx.searchers.insert(skey, ss);
 
     // ---- unit-level tie of the line splitting
     let lens_impl = lens_str(&LineIter::new(lt.byte(), input).map(|l| l.len()).collect::<Vec<_>>());
@@ -343,6 +346,95 @@ fn run_generic<M: Matcher>(p: &Prep, m: &M, answers: &[String], ctx: &mut Ctx) {
             detail: format!("driver answered {:?}", reply),
         }),
     }
+}
+
+// ---------------------------------------------------------------- histories: one Searcher, several searches
+
+/// `hist <cfgtoken> <needle-hex> <input-hex>,<input-hex>,…`: ONE Searcher object searches the inputs one after the
+/// other through every strategy (slice, reader with small chunks, path); each search must give what a fresh
+/// Searcher gives and what the model gives for that input alone — nothing of an earlier search may leak into a
+/// later one (reusable line buffer, multi-line buffer, decode buffer). With `m1` and a needle containing the
+/// terminator the searches go through the multi-line strategy.
+fn run_history(line: &str, ctx: &mut Ctx) {
+    let p: Vec<&str> = line.split_whitespace().collect();
+    let parsed = (|| {
+        if p.len() != 4 {
+            return None;
+        }
+        let cfg = Cfg::parse_token(p[1])?;
+        let needle = unhex(p[2])?;
+        let inputs: Option<Vec<Vec<u8>>> = p[3].split(',').map(unhex).collect();
+        Some((cfg, needle, inputs?))
+    })();
+    let (cfg, needle, inputs) = match parsed {
+        Some(x) => x,
+        None => {
+            ctx.rep.notes.push(format!("unparsable history: {}", line));
+            return;
+        }
+    };
+    ctx.rep.eval();
+    ctx.rep.branch(if cfg.ml { "history:multi-line" } else { "history:line-by-line" });
+    let m = LitMatcher::new(needle, None, None, None);
+    let msx = m.to_sx();
+    let effsx = cfg.effective().to_sx();
+    let mut one = Searchers::new(&cfg);
+    for (i, input) in inputs.iter().enumerate() {
+        let model = ctx.drv.ask(&format!("c03.model {} {} {} (sink all)", effsx, msx, hex(input)));
+        ctx.files += 1;
+        let file = scratch_file(&ctx.scratch, &format!("c03-h{}.bin", ctx.files), input);
+        let strategies: Vec<(Strategy, bool)> = vec![
+            (Strategy::Reader(3), false),
+            (Strategy::Slice, false),
+            (Strategy::Reader(1), false),
+            (Strategy::Path(file.clone()), false),
+            (Strategy::Path(file.clone()), true),
+        ];
+        for (st, mmap) in strategies {
+            let s = if mmap { &mut one.mmap } else { &mut one.plain };
+            let got = run_with(s, &m, input, Script::All, &st).0;
+            let fresh = run_impl(&cfg, &m, input, Script::All, &st, mmap);
+            ctx.rep.eval();
+            if got != fresh {
+                ctx.rep.violation(Violation {
+                    kind: "impl_vs_spec".into(),
+                    class: "".into(),
+                    tie: format!("{}: a search does not depend on what the same Searcher searched before", st.name()),
+                    case: line.to_string(),
+                    detail: format!(
+                        "search #{} ({}) of input {:?} by the reused Searcher gives {} ; a fresh Searcher gives {}",
+                        i + 1,
+                        st.name(),
+                        show(input),
+                        got,
+                        fresh
+                    ),
+                });
+            }
+            if got != model {
+                ctx.rep.violation(Violation {
+                    kind: "impl_vs_model".into(),
+                    class: "".into(),
+                    tie: format!("{} by a reused Searcher vs Lean model searchSlice", st.name()),
+                    case: line.to_string(),
+                    detail: format!("search #{} of input {:?}: impl {} model {}", i + 1, show(input), got, model),
+                });
+            }
+        }
+        std::fs::remove_file(&file).ok();
+    }
+}
+
+fn history_case(rng: &mut Rng) -> String {
+    let ml = rng.chance(2, 3);
+    let mut cfg = gen_cfg(rng, 2);
+    cfg.lt = Lt::Lf;
+    cfg.son = false;
+    cfg.ml = ml;
+    let needle: &[u8] = if ml { *rng.pick(&[&b"x\n"[..], b"x\ny", b"\n"]) } else { b"x" };
+    let n = rng.range(2, 4);
+    let inputs: Vec<String> = (0..n).map(|_| hex(&gen_lit_input(rng, Lt::Lf, b"x", 5, 1, 2))).collect();
+    format!("hist {} {} {}", cfg.token(), hex(needle), inputs.join(","))
 }
 
 // ---------------------------------------------------------------- generated streams
@@ -669,7 +761,7 @@ fn main() {
          least two delivered groups separated by a break and at least one context line. Distinct by case text. Thorough tier adds \
          the exhaustive enumeration of all selection patterns over <= 10 lines.",
     );
-    let mut ctx = Ctx { drv, rep, scratch: args.scratch.clone(), files: 0 };
+    let mut ctx = Ctx { drv, rep, scratch: args.scratch.clone(), files: 0, searchers: Default::default() };
     for c in corpus_cases(&args) {
         run_case(&c, &mut ctx, false);
     }
@@ -685,6 +777,10 @@ fn main() {
             };
             if i < 9 {
                 ctx.rep.sample(case.clone());
+            }
+            if i % 25 == 3 {
+                let h = history_case(&mut rng);
+                run_history(&h, &mut ctx);
             }
             if let Some(p) = prepare(&case, &mut ctx, true) {
                 batch.push(p);
